@@ -29,6 +29,9 @@ type c07Env struct {
 }
 
 func (c07Env) Boom(i int) int { panic("boom") }
+func (e c07Env) Total() int   { return e.N*100 + len(e.A) }
+
+type c07NamedMap map[string]interface{}
 
 func c07Ops() []c07Op {
 	mustC := func(src string, ops ...expr.Option) *vm.Program {
@@ -55,6 +58,12 @@ func c07Ops() []c07Op {
 		{name: "count", prog: mustC(`count(A, {# > 1}) + count(1..N, {# > Z})`, expr.Env(c07Env{}), noopt), env: se(3, 1)},
 		{name: "mapEnv", prog: mustC(`filter(A, {# >= N})`, expr.Env(me)), env: me},
 		{name: "callPanic", prog: mustC(`map(A, {Boom(#)})`, expr.Env(c07Env{})), env: se(1, 1)},
+		{name: "callEnvA", prog: mustC(`Total() + N`, expr.Env(c07Env{})), env: se(2, 1)},
+		{name: "callEnvB", prog: mustC(`Total() + N`, expr.Env(c07Env{})), env: c07Env{N: 7, Z: 1, A: []int{1}}},
+		{name: "mapProgNilEnv", prog: mustC(`N`, expr.Env(me)), env: nil},
+		{name: "mapProgNamedMap", prog: mustC(`N`, expr.Env(me)), env: c07NamedMap{"N": 9}},
+		{name: "mapProgOtherMap", prog: mustC(`N`, expr.Env(me)), env: map[string]interface{}{"N": 4}},
+		{name: "allocThenFail", prog: mustC(`map(1..N, {#})[N + 5]`, expr.Env(c07Env{}), noopt), env: se(3, 1)},
 		{name: "budget5", budget: 5},
 		{name: "budget10", budget: 10},
 	}
@@ -72,7 +81,7 @@ func c07Run(v *vm.VM, op c07Op) c07Res {
 	}
 	out, err := v.Run(op.prog, op.env)
 	if err != nil {
-		return c07Res{failed: true}
+		return c07Res{failed: true, out: err.Error()}
 	}
 	return c07Res{out: snap.String(out)}
 }
@@ -83,7 +92,7 @@ func c07Fresh(op c07Op) c07Res {
 	}
 	out, err := vm.Run(op.prog, op.env)
 	if err != nil {
-		return c07Res{failed: true}
+		return c07Res{failed: true, out: err.Error()}
 	}
 	return c07Res{out: snap.String(out)}
 }
@@ -160,6 +169,9 @@ func c07(r *report.Run) {
 						}
 					}
 					kind := "fails-but-fresh-succeeds"
+					if last.failed && fresh.failed {
+						kind = "fails-differently-from-fresh"
+					}
 					if !last.failed && fresh.failed {
 						kind = "succeeds-but-fresh-fails"
 					} else if !last.failed {
